@@ -32,6 +32,11 @@ REQUIRES = ['From SFC.Base Require Import Res Str.',
 # GEN_TAX_ORIG=1: compare against the model of the dividend loop before commit 925b299 (used to validate
 # `dividends_orig` on a tree with that fix reverted)
 USE_ORIG = os.environ.get('GEN_TAX_ORIG') == '1'
+# Finding (reported to the lead, see agent_reports/GenTax.md): when the tax recipient is itself taxable its own -T
+# and +T merge into 0*T under one name and the other payers' outflows have no inflow.  The theorem excludes it
+# (hypothesis), Tax_recipient_taxable_refuted records it.  With this flag the oracle reports such inputs under
+# the key 'tax:recipient-taxable' (needs the matching known_findings.json entry); otherwise they are only counted.
+REPORT_TAXABLE_RECIPIENT = os.environ.get('GEN_TAX_REPORT_TAXABLE_RECIPIENT', '1') == '1'   # recorded as known finding D23
 
 
 # ------------------------------------------------------------------------------------------ snapshots
@@ -286,8 +291,28 @@ def tax_oracle(c, before, after, exp, info):
                 fails.append({'key': 'tax:payer-income-changed', 'replay': rep,
                               'what': 'pre-tax income equation of payer %s changed by the tax flow: %r -> %r' % (
                                   b['full'], dict(b['vars']).get('INC'), dict(a['vars']).get('INC'))})
+    # the tax flow's T: one rate*INC product per taxable sector other than itself, the sector's own TaxRate
+    # variable when it has one (computed here from the snapshots, independently of the implementation)
+    me = [d for d in before if d['sid'] == info['me']][0]
+    if me['code'] != info['paid_to']:
+        want = []
+        for b in before:
+            if b['sid'] != info['me'] and b['taxable']:
+                rate = (b['full'] if 'TaxRate' in dict(b['vars']) else me['full']) + '__TaxRate'
+                want.append('%s*%s__INC' % (rate, b['full']))
+        got = render_rhs(dict([d for d in after if d['sid'] == info['me']][0]['vars'])['T'])
+        if got != ('+'.join(want) if want else '0.0'):
+            fails.append({'key': 'tax:members', 'replay': rep,
+                          'what': "tax flow's T is %r, expected one rate*INC product per taxable sector: %r" % (
+                              got, '+'.join(want))})
+    status, key = 'checked', 'tax:bookings-do-not-cancel'
     if not tax_hypotheses(before, info):
-        return fails, 'outside'
+        only_taxable_recipient = all(
+            (d['sid'] == info['me'] or not d['taxable'] or rhs_empty(d, 'T') or d['code'] == info['paid_to'])
+            and not (d['code'] == info['paid_to'] and d['sid'] == info['me']) for d in before)
+        if not only_taxable_recipient:
+            return fails, 'outside'
+        status, key = 'outside:recipient-taxable', 'tax:recipient-taxable'
     defs = {}
     for b, a in zip(before, after):
         if b['sid'] == info['me'] or b['taxable'] or b['code'] == info['paid_to']:
@@ -304,10 +329,14 @@ def tax_oracle(c, before, after, exp, info):
                 total += x
                 parts.append('%s: %+d*%s = %s' % (a['full'], coef, text, x))
         if total != 0:
-            fails.append({'key': 'tax:bookings-do-not-cancel', 'replay': rep,
+            if key == 'tax:recipient-taxable':
+                status = 'outside:recipient-taxable-imbalanced'
+                if not REPORT_TAXABLE_RECIPIENT:
+                    break
+            fails.append({'key': key, 'replay': rep,
                           'what': 'entries booked by the tax flow sum to %s, not 0 (%s)' % (total, '; '.join(parts))})
             break
-    return fails, 'checked'
+    return fails, status
 
 
 def render_py(e):
